@@ -167,6 +167,10 @@ func (a *pwaligner) fillMatrix_SW() (err error) {
 	var c1, c2 uint8
 	var indexseq1, indexseq2 []int // convert characters to subst matrix positions
 
+	if a.seq1.Length() == 0 || a.seq2.Length() == 0 {
+		return fmt.Errorf("cannot align an empty sequence")
+	}
+
 	a.initMatrix(a.seq1.Length(), a.seq2.Length())
 	// the maximum belongs to this matrix only (Alignment() may be called again, e.g. after SetScore)
 	a.maxscore, a.maxi, a.maxj = .0, 0, 0
